@@ -3430,6 +3430,9 @@ def dict2const(
     :returns: A constant object that construct from an input fmt and name
         values.
     """
+    # NOTE: freeze the mapping at creation, a later change of the input
+    #   mapping must not change this constant class.
+    fmt = dict(fmt)
     _base_fmt: str = base_fmt or "".join(fmt.keys())
 
     class CustomConstant(Constant):
@@ -3500,7 +3503,7 @@ def dict2const(
         def values(self, value: Any | None = None) -> DictStr:
             """Return the constant values"""
             _ = self.prepare_value(value)
-            return fmt
+            return fmt.copy()
 
         def __search_fmt(self, value: str) -> str:
             """Return the first format that equal to an input string value.
